@@ -163,7 +163,8 @@ impl ObjectReceiver {
             return;
         }
 
-        if self.oti.is_none() {
+        if self.oti.is_none() || (self.transfer_length == Some(0) && self.object_writer.is_none()) {
+            // OTI is not known yet, or empty object that cannot be completed before its FDT is attached
             self.cache(pkt)
                 .unwrap_or_else(|_| self.error("Fail to push pkt to cache", now, false));
             return;
@@ -607,7 +608,9 @@ impl ObjectReceiver {
     }
 
     fn push_from_cache(&mut self, now: std::time::SystemTime) {
-        if self.nb_block() == 0 {
+        // An empty object has no block, its packet is replayed once the object writer is opened
+        let is_empty_object_ready = self.transfer_length == Some(0) && self.object_writer.is_some();
+        if self.nb_block() == 0 && !is_empty_object_ready {
             return;
         }
 
